@@ -60,11 +60,13 @@ Proof.
   unfold start_ns, lateMessageMargin_ns, clockErrorTolerance_ns, nano. nia.
 Qed.
 
-Lemma own_slot_round_one_in_window : forall c now h,
-  wf_cfg c -> wf_time c now -> true_slot c (fst now) = Z.of_N h ->
-  (addw (estimated_round c h (time_unix (fst now) (snd now))) allowedRoundsInFuture <? firstRound)%N = false.
+(* rounds 1 and 2 are inside the round window at any instant of the slot: the estimated round is at least 1 and one
+   round in the future is allowed *)
+Lemma own_slot_round_in_window : forall c now h rho,
+  wf_cfg c -> wf_time c now -> true_slot c (fst now) = Z.of_N h -> (rho <= 2)%N ->
+  (addw (estimated_round c h (time_unix (fst now) (snd now))) allowedRoundsInFuture <? rho)%N = false.
 Proof.
-  intros c now h W (Hg & Hd & Hs & Hn) Hcur0.
+  intros c now h rho W (Hg & Hd & Hs & Hn) Hcur0 Hrho.
   pose proof W as (Hd0 & _ & _).
   destruct (true_slot_bounds c (fst now) W Hs) as (Hc0 & Hc1). rewrite Hcur0 in Hc0, Hc1.
   assert (Hdur : 0 < Z.of_N (c_slot_dur c) < 1048576) by lia.
@@ -118,3 +120,8 @@ Proof.
       by (apply addw_small; unfold allowedRoundsInFuture, two64; change (Z.of_N 1) with 1; lia) end.
   unfold firstRound, allowedRoundsInFuture in *. change (Z.of_N 1) with 1 in *. lia.
 Qed.
+
+Lemma own_slot_round_one_in_window : forall c now h,
+  wf_cfg c -> wf_time c now -> true_slot c (fst now) = Z.of_N h ->
+  (addw (estimated_round c h (time_unix (fst now) (snd now))) allowedRoundsInFuture <? firstRound)%N = false.
+Proof. intros. apply own_slot_round_in_window; auto. unfold firstRound. lia. Qed.
